@@ -319,10 +319,9 @@ func HandleSetFileInfo(cc *hotline.ClientConn, t *hotline.Transaction) (res []ho
 			if err != nil {
 				return nil
 			}
-			hlFile.Name, err = txtDecoder.String(string(fileNewName))
-			if err != nil {
-				return res
-			}
+			// Use the cleaned new name (fullNewFilePath went through ReadPath) so that a name such as "../../x"
+			// cannot move the file out of its folder and out of the file root.
+			hlFile.Name = filepath.Base(fullNewFilePath)
 
 			err = hlFile.Move(fileDir)
 			if os.IsNotExist(err) {
